@@ -18,5 +18,5 @@ For each change k in (a, b) deliver, in {wt}/out/{pid}-<k>/ :
   * patch.diff   - `git -C {wt} diff` of ONLY that change (apply cleanly with `git apply` on the pinned commit; source files under unyt/ only)
   * demo.py      - a small standalone program (run as `PYTHONPATH=<tree> /venv/bin/python demo.py`) that exits 0 on the unchanged tree and exits 1 (printing what went wrong) with the change applied; it must exercise the property as stated, through the public API
   * meta.json    - {{"property": "{pid}", "summary": "...what the change does...", "needs": "...what specific input/sequence/state it needs to manifest...", "files": [...], "suite": "652 passed, 28 failed (same set)"}}
-Procedure for each: make the change, run the test-suite, run demo.py with and without the change (use `git stash` / `git checkout -- unyt` to switch), save the files, then `git checkout -- unyt` so the worktree is pristine before starting the next one. Verify at the end that both patches apply to a pristine tree with `git apply --check`.
+Do NOT use `git stash` (the stash is shared between worktrees of one repository and other authors work in sibling worktrees): switch between changed and pristine tree with `git diff > file`, `git checkout -- unyt`, `git apply file`. Procedure for each: make the change, run the test-suite, run demo.py with and without the change (use `git diff > file` + `git checkout -- unyt` + `git apply file` to switch), save the files, then `git checkout -- unyt` so the worktree is pristine before starting the next one. Verify at the end that both patches apply to a pristine tree with `git apply --check`.
 Finish with a short report: for each change, the summary, what it needs to manifest, and the observed outputs of demo.py with/without the change and of the test-suite.""")
